@@ -10,7 +10,7 @@ for m in sorted(glob.glob("/verif/seeded/*/meta.json")):
     own = d["property"]
     now = d.get("fired_now")
     rules = d.get("rules_now", [])
-    caught = "not re-run" if now is None else (", ".join(r for r in rules) if rules else ("**missed**" if not now else " ".join(now)))
+    caught = ("superseded: " + d["superseded"]) if d.get("superseded") else "not re-run" if now is None else (", ".join(r for r in rules) if rules else ("**missed**" if not now else " ".join(now)))
     first = d.get("checks_that_fired")
     rows.append("| %s | %s | %s | %s | %s |" % (name, own, ", ".join(f.replace("include/boost/gil/", "") for f in files), " ".join(first) if first else ("—" if first is not None else "n/a"), caught))
 open("/verif/seeded/README.md", "w").write("""# Seeded changes
